@@ -691,6 +691,16 @@ class Interp:
             return True
         if not (is_int(a) and is_int(b)):
             return True
+        # equality facts between byte symbols (used by comparison-completeness rules)
+        if op == '==':
+            pa_, pb_ = pure_byte_sym(a, st.sym), pure_byte_sym(b, st.sym)
+            if pa_ and pb_ and pa_ != pb_:
+                st.comps['eq'] = st.comps.get('eq', frozenset()) | {tuple(sorted((pa_, pb_)))}
+            for x, y in ((a, b), (b, a)):
+                if x[0] == 'ox' and y == C(0):
+                    st.comps['eq'] = st.comps.get('eq', frozenset()) | x[1]
+        if a[0] in ('xk', 'ox') or b[0] in ('xk', 'ox'):
+            return True
         # symbolic single-symbol refinement
         d = add(a, b, st.sym, -1)
         if d[0] == 'l' and len(d[2]) == 1:
@@ -983,7 +993,16 @@ class Interp:
                 s.mem[(obj, ('$elt',))] = ('type', n['at'])
                 self.emit('new', s, node=n, obj=obj, count=cnt, at=at)
                 init = n.get('init')
-                if init is not None and init['k'] in ('CXXConstructExpr',) and at.get('k') == 'rec':
+                if init is not None and init['k'] in ('CXXConstructExpr',) and at.get('k') == 'rec' and cnt[0] == 'c' and 0 <= cnt[1] <= 64:
+                    cur = [s]
+                    for i in range(cnt[1]):
+                        nxt = []
+                        for s1 in cur:
+                            nxt += self.construct(init, s1, fr, (obj, (i,)), array_elem=True)
+                        cur = nxt
+                    for s2 in cur:
+                        out.append((s2, P(obj, (0,))))
+                elif init is not None and init['k'] in ('CXXConstructExpr',) and at.get('k') == 'rec':
                     # construct the summary element: every element is built by the same constructor
                     idx = ('l', 0, (('$any%d' % n['_id'], 1),))
                     r = rng(cnt, s.sym, self.T(n['arr']))
@@ -1189,6 +1208,13 @@ class Interp:
         for s, v in res:
             self.emit('leave', s, fn=fdef, fr=nf, node=n, val=v)
             self._drop_frame(s, nf)
+        if len(res) > 1:
+            seen = {}
+            for s, v in res:
+                k = (s.key(), v)
+                if k not in seen:
+                    seen[k] = (s, v)
+            res = list(seen.values())
         return res
 
     def _drop_frame(self, st, fr):
